@@ -30,6 +30,7 @@ END_SECS = calendar.timegm((2100, 1, 1, 0, 0, 0))
 TOL = 0.001 + 1e-6
 
 OBLIGATIONS = {
+    "after_an_ill_formed_timestamp": "well-formed conversions probed right after an operation on an ill-formed timestamp (month 13-15, day 0 / 31 February, before 1970) in the same process",
     "receiver_with_a_past": "add* fired on a timestamp obtained from readUnixTime, from an earlier addSec, from a copy and from a string",
     "jan1_midnight": "1 January 00:00:00.000 probed",
     "dec31_lastms": "31 December 23:59:59.999 probed",
@@ -134,6 +135,7 @@ ADDERS = {"addSec": 1, "addMin": 60, "addHour": 3600, "addDay": 86400}
 
 
 ORIGINS = ["constructed", "read-unix", "added", "copied", "parsed"]
+ORIGIN_OPS = {"read-unix": 1, "added": 2, "copied": 1, "parsed": 0}      # inexact operations in the receiver's past
 
 
 def _obtain(f, origin):
@@ -160,9 +162,21 @@ def check_add(f, ev, n, ctx, origin="constructed"):
             return False
         ctx.oblige("receiver_with_a_past")
     base = ref_secs(f)
-    exp = base + n * ADDERS[ev]
-    if exp < 0 or exp >= END_SECS:
+    if base + n * ADDERS[ev] < 0 or base + n * ADDERS[ev] >= END_SECS:
         return False
+    if origin != "constructed" and f[6] != 0:
+        # the receiver's past is a chain of operations, each exact to within one millisecond: the receiver itself is judged
+        # first (within one millisecond per operation of its past), then the addition from the instant the receiver denotes
+        st, rec = guard(_obtain, f, origin)
+        if st != "ok":
+            ctx.violation("receiver/%s/raises" % origin, case, rec)
+            return True
+        h = fields(rec)
+        if not wellformed(h) or abs(ref_secs(h) - base) > ORIGIN_OPS[origin] * TOL:
+            ctx.violation("receiver/%s/denotes-another-instant" % origin, case, {"got": list(h), "expected_secs": base})
+            return True
+        base = ref_secs(h)
+    exp = base + n * ADDERS[ev]
     st, r = guard(lambda: getattr(_obtain(f, origin), ev)(n))
     if st != "ok":
         ctx.violation("%s/raises" % ev, case, r)
@@ -229,8 +243,48 @@ def check_nextday(f, ctx):
     return r
 
 
+# ---- after a refused conversion: ill-formed timestamps (a month beyond 12, a day 0 ...) are outside the statement and may
+# be refused or converted to anything; what they may not do is change what the NEXT well-formed conversion answers
+ILL_FORMED = [(2024, 14, 1, 0, 0, 0, 0), (2023, 14, 1, 0, 0, 0, 0), (2024, 13, 1, 0, 0, 0, 0), (2024, 0, 1, 0, 0, 0, 0),
+              (2024, 2, 31, 0, 0, 0, 0), (2023, 15, 40, 25, 61, 61, 0), (1969, 12, 31, 23, 59, 59, 0)]
+ILL_CALLS = {"toAbsTime": lambda t: t.toAbsTime(), "addSec": lambda t: t.addSec(1), "addDay": lambda t: t.addDay(1),
+             "sub": lambda t: t - ObsTime(2000, 1, 1, 0, 0, 0, 0), "cmp": lambda t: t < ObsTime(2000, 1, 1, 0, 0, 0, 0)}
+AFTER_PROBES = [(y, m, d, h, 0, 0, 0) for y in (2023, 2024, 2025) for m in range(1, 13) for (d, h) in ((1, 0), (15, 12), (28, 23))]
+
+
+class _After(object):
+    """ctx proxy: findings of the well-formed probe are filed under '<key>/after-an-ill-formed-timestamp' with both in the case."""
+
+    def __init__(self, ctx, ill, call):
+        self._ctx, self._ill, self._call = ctx, ill, call
+
+    def violation(self, key, case, detail=None):
+        self._ctx.violation(key + "/after-an-ill-formed-timestamp", {"op": "after", "ill": list(self._ill), "call": self._call, "then": case}, detail)
+
+    def __getattr__(self, name):
+        return getattr(self._ctx, name)
+
+
+def _fire_ill(ill, call):
+    guard(lambda: ILL_CALLS[call](ObsTime(*ill)))
+    guard(lambda: ObsTime.readUnixTime(ref_secs((2024, 1, 1, 0, 0, 0, 0)) * 400))     # an instant far outside the range
+
+
+def check_after(ill, call, probe, ctx):
+    _fire_ill(ill, call)
+    sub = _After(ctx, ill, call)
+    check_roundtrip(probe, sub)
+    check_unix(int(ref_secs(probe)), sub)
+    check_add(probe, "addDay", 1, sub)
+    ctx.oblige("after_an_ill_formed_timestamp")
+
+
 def replay(case, ctx):
     op = case["op"]
+    if op == "after":
+        then = case["then"]
+        _fire_ill(tuple(case["ill"]), case["call"])
+        return replay(then, _After(ctx, tuple(case["ill"]), case["call"]))
     if op == "roundtrip":
         check_roundtrip(tuple(case["f"]), ctx)
     elif op == "unix":
@@ -293,6 +347,8 @@ def plan(tier, variant):
     anchors = _anchors(variant)
     for i in range(0, len(anchors), 5):
         sh.append({"kind": "pairs", "lo": i, "hi": i + 5, "variant": variant})
+    for i, ill in enumerate(ILL_FORMED):
+        sh.append({"kind": "after", "ill": list(ill), "variant": variant})
     ystep = 2 if tier == "thorough" else 10
     for y in range(Y0, Y1 + 1, ystep):
         sh.append({"kind": "seconds", "y0": y, "y1": min(y + ystep - 1, Y1), "variant": variant,
@@ -307,6 +363,14 @@ def run_shard(shard, ctx):
         _run_days(shard, ctx)
     elif k == "pairs":
         _run_pairs(shard, ctx)
+    elif k == "after":
+        ill = tuple(shard["ill"])
+        for call in sorted(ILL_CALLS):
+            for probe_ in AFTER_PROBES:
+                check_after(ill, call, probe_, ctx)
+                ctx.case(True)
+                ctx.transition(2)
+        ctx.sample({"ill_formed": list(ill), "calls": sorted(ILL_CALLS), "then": "round trip, readUnixTime and addDay(1) on %d well-formed instants of 2023-2025" % len(AFTER_PROBES)})
     else:
         _run_seconds(shard, ctx)
 
@@ -358,6 +422,12 @@ def _run_days(shard, ctx):
             if check_add(g, ev, n, ctx):
                 ctx.case(True)
                 ctx.transition()
+        # ... and from a receiver with a past that carries milliseconds (a copy, a conversion or an earlier addition keeps them)
+        for origin in (ORIGINS[1:4] if sp else [ORIGINS[1 + (d + mo) % 3]]):
+            for ev, n in (("addSec", 1), ("addSec", 0.001)):
+                if check_add(g, ev, n, ctx, origin):
+                    ctx.case(True)
+                    ctx.transition()
         if first_sample and sp:
             ctx.sample({"state": list(f), "events": ["roundtrip at %r" % (instants[-1],)] + ["%s(%r)" % e for e in DAY_EVENTS[:4]]})
             first_sample = False
